@@ -321,17 +321,15 @@ def attach(sh, h, x):
     if sh.o[h]['kind'] in 'RP': sh.store(h, 0, f'o{x}')
     else: sh.push(h, f'o{x}')
 
-def after_raise(rng, sh, words, probe):
-    """mark bits are set (an exception left the mark phase).  The program goes on: a few stores; often it attaches an object that the
-    interrupted mark phase had not reached to a holder it had already marked (reachable from thread-local storage / a root-registered
-    entry) — the next collection must keep that object (GC_Unmark; a collector that starts from the stale bits skips the holder)"""
-    for _ in range(rng.randrange(0, 4)): mutate_existing(rng, sh, list(sh.o))
-    if rng.random() < 0.7:
-        early = sh.reach()                                  # marked by the TLS and root phases, before any stack word
-        late = sh.reach(words=words)
-        hs = [i for i in early if i in sh.o and sh.o[i]['kind'] in 'RPALH' and i != probe
+def after_raise(rng, sh, marked, probe):
+    """mark bits are set (an exception left the mark phase; `marked` = objects whose bit is certainly set).  The program goes on: a few
+    stores; often it attaches an object that the interrupted mark phase had not reached to a holder it had already marked — the next
+    collection must keep that object (GC_Unmark; a collector that starts from the stale bits skips the holder)"""
+    for _ in range(rng.randrange(0, 3)): mutate_existing(rng, sh, list(sh.o))
+    if rng.random() < 0.75:
+        hs = [i for i in marked if i in sh.o and sh.o[i]['kind'] in 'RPALH' and i != probe
               and not (sh.o[i]['kind'] in ARR and sh.o[i]['vt'] != 'R')]
-        xs = [i for i in sh.o if i not in late and not sh.owned(i) and not sh.israw(i)]
+        xs = [i for i in sh.o if i not in marked and i != probe and not sh.owned(i) and not sh.israw(i)]
         if hs and xs: attach(sh, rng.choice(hs), rng.choice(xs))
     for _ in range(rng.randrange(0, 3)): mutate_existing(rng, sh, list(sh.o))
 
@@ -349,10 +347,17 @@ def gen_exact(rng, nops, maxobj, ncollect, focus=False):
             if ms and rng.random() < 0.3:
                 # a collection whose mark phase an exception leaves (the Mark instance of a probe throws), then the next one
                 m = rng.choice(ms)
-                if rng.random() < 0.6: words = words + [f'o{m}']      # reached through a stack word, after the TLS and root phases
+                before = sh.reach(words=words)
+                if m not in before:
+                    # reached as a root word itself, after everything before it has been traced: the set of bits that stay is dumped and compared
+                    if rng.random() < 0.85: words = words + [f'o{m}'] + [rand_tok(rng, sh, tg) for _ in range(rng.choice([0, 0, 1, 2]))]
+                    marked = before
+                else:
+                    marked = sh.reach()      # reached somewhere inside the TLS / root / word phases (order-dependent: dumped as `*`)
+                    marked = marked if m not in marked else set()
                 sh.xraise(m, words)
                 if sh.stale:
-                    after_raise(rng, sh, words, m)
+                    after_raise(rng, sh, marked, m)
                     tg = sh.targets()
                     sh.xcollect([rand_tok(rng, sh, tg) for _ in range(rng.choice([0, 0, 1, 2]))])
             else:
@@ -608,7 +613,7 @@ def shape_cases(quick):
         sh.remtls(1); sh.root(0, 'n'); sh.churn(10); sh.collect()
         cs.append(Case('full_three_root_kinds', sh.lines, meta=dict(stats=sh.stats)))
     fullshape()
-    # ---- formerly excluded territory (fixes d8f0c4f, 80c795e, d3e4e44)
+    # ---- formerly excluded territory (fixes d8f0c4f, d3e4e44) and Thread objects other than current(Thread) (Thread_Mark, 0a0ad73)
     def raise_attach(sh):
         r = sh.new('R', root=True); a = sh.new('A', root=True); t = sh.new('P', arg='2'); sh.settls(1, f'o{t}')
         m = sh.new('M'); x = sh.new('P', arg='8'); y = sh.new('P', arg='1'); z = sh.new('R')
@@ -624,15 +629,33 @@ def shape_cases(quick):
     def foreign_thread(sh):
         w = sh.new('W'); x = sh.new('P', arg='1'); y = sh.new('R'); sh.store(y, 0, f'o{x}')
         sh.wset(w, 1, f'o{y}'); sh.wset(w, 2, f'o{x}'); sh.wset(w, 3, 'n')
-        sh.xcollect([f'o{w}', f'o{y}'])           # y is a root word itself: w, y, x survive
-        sh.xcollect([f'o{w}'])                    # only the Thread object: another thread's table is not traced, y and x are swept
+        sh.xcollect([f'o{w}', f'o{y}'])
+        sh.xcollect([f'o{w}'])                    # the Thread object is the SOLE path (set(t, key, obj)): y and x survive
         z = sh.new('P', arg='2'); sh.wset(w, 1, f'o{z}'); sh.wrem(w, 2)
         hold = sh.new('A', root=True); sh.push(hold, f'o{w}'); sh.settls(5, f'o{w}')
-        sh.xcollect([f'o{z}']); sh.xcollect([])   # w is kept by the Array / TLS; z only while it is a root word
-        wr = sh.new('W', root=True); v = sh.new('R'); sh.wset(wr, 0, f'o{v}'); sh.xcollect([])
+        sh.xcollect([]); sh.xcollect([])          # w is kept by the Array / TLS, z through w's table; y, x are gone
+        wr = sh.new('W', root=True); v = sh.new('R'); u = sh.new('P', arg='8'); sh.store(v, 0, f'o{u}'); sh.wset(wr, 0, f'o{v}'); sh.xcollect([])
+        sh.wrem(wr, 0); sh.xcollect([])
         sh.delete(wr) if not sh.has_incoming(wr) else None
         sh.pop(hold, 0); sh.remtls(5); sh.xcollect([])
-    ex('foreign_thread_table', foreign_thread)
+    ex('thread_table_sole_path', foreign_thread)
+    def fullthread():
+        # a Thread object that is not current(Thread), held by a stack slot / a root-registered holder / TLS, as the sole path to managed objects
+        sh = Shadow(True)
+        w = sh.new('W', slot=0); x = sh.new('P', arg='2', slot=1); y = sh.new('R', slot=2); sh.store(y, 0, f'o{x}')
+        sh.wset(w, 1, f'o{y}'); sh.root(1, 'n'); sh.root(2, 'n')
+        sh.collect(); sh.churn(150); sh.collect()
+        z = sh.new('A', slot=3); q = sh.new('P', arg='8', slot=4); sh.push(z, f'o{q}'); sh.wset(w, 2, f'o{z}'); sh.root(3, 'n'); sh.root(4, 'n')
+        sh.churn(60); sh.collect(); sh.churn(300); sh.collect()
+        hd = sh.new('R', slot=5, root=True); sh.store(hd, 0, f'o{w}'); sh.root(0, 'n'); sh.root(5, 'n')
+        sh.churn(100); sh.collect()
+        sh.settls(2, f'o{w}'); sh.store(hd, 0, 'n'); sh.churn(40); sh.collect()
+        wr = sh.new('W', slot=6, root=True); sh.root(6, 'n'); v = sh.new('H', slot=7); sh.wset(wr, 0, f'o{v}'); sh.root(7, 'n')
+        sh.churn(200); sh.collect()
+        sh.wrem(w, 1); sh.collect(); sh.churn(20); sh.collect()
+        sh.remtls(2); sh.collect()
+        cs.append(Case('full_thread_table_sole_path', sh.lines, meta=dict(stats=sh.stats)))
+    fullthread()
     def del_null(sh):
         keep = sh.new('R', root=True)
         ps = [sh.new('P', arg='8') for _ in range(12)]
@@ -697,7 +720,7 @@ class C01(Spec):
                  'reachability through every object representation; source-derived tables and fix-sensitive shapes regenerated each run; '
                  'white-box differential check of mark bits and swept sets against the real collector; shadow-graph oracle on the real GC_Mark')
     level_text = ('Theorems C01_mark_complete / C01_sweep_safe (mark phase and unlink phase on clear mark bits): for every registered heap (any finite graph: cycles, sharing, self references, chains of any '
-                  'length), every object representation (plain words, Ref, Box, Array, List, Table keys+values, Tree keys+values, heap Tuple, thread-local table; '
+                  'length), every object representation (plain words, Ref, Box, Array, List, Table keys+values, Tree keys+values, heap Tuple, thread-local table, the table of any other Thread object; '
                   'containers with their CURRENT element / key / value types, which assign() between containers redefines) '
                   'and every root set of the three kinds, the model of the mark phase marks every object reachable from the roots, and the model of the sweep '
                   'keeps every marked or root-flagged entry registered with unchanged contents and off the pending list; the marker is a total function that '
@@ -711,20 +734,25 @@ class C01(Spec):
                   'threshold-triggered and forced collections) is checked against a shadow-graph oracle: reachable ⊆ survivors, contents intact. '
                   'The WHOLE collection is modelled: the mark bits are part of the state of a history (C01_mark_exact_from / C01_sweep_exact_from: a mark phase that '
                   'starts from bits that are already set marks exactly those and what is reachable through unmarked entries), and the release loop of GC_Sweep with '
-                  'Box_Del -> del -> GC_Rem_Ptr is modelled (C01_release_within_pending, C01_release_bounded). C01_collect_safe_partial / C01_history_safe_partial '
-                  'prove "not put on the pending list, not finalised, contents unchanged" under two explicit decidable hypotheses: no mark bit is set when a '
-                  'collection begins (holds when GC_Mark clears the bits first, or when no exception leaves a mark phase; refuted without: known finding '
-                  'KF-C01-stale-marks, C01_stale_marks_refuted) and no freed entry owns a surviving one (Box ownership contract, an exclusion; C01_box_contract '
-                  'derives it from "no reachable object is owned by an unreachable Box"; refuted without: C01_collect_safe_box_refuted).')
+                  'Box_Del -> del -> GC_Rem_Ptr (with its early-out for NULL, fix d3e4e44: C01_del_null_noop) is modelled (C01_release_within_pending, C01_release_bounded). '
+                  'For the code as it is — GC_Mark begins with GC_Unmark, fix d8f0c4f, read from the source on every run as clearFirstNow — C01_collect_safe_current / '
+                  'C01_collect_safe_any_bits / C01_current_source_history / C01_history_safe_exclusive prove "not put on the pending list, not finalised, contents unchanged" for EVERY '
+                  'history, including those in which exceptions leave mark phases and whatever mark bits are set, under one explicit decidable hypothesis: no freed entry owns a '
+                  'surviving one (Box ownership contract, an exclusion; C01_box_contract derives it from "no reachable object is owned by an unreachable Box"; refuted without: '
+                  'C01_collect_safe_box_refuted). The collector before a repair is an explicit OLD variant of the model with its witness kept: clearFirst = false '
+                  '(C01_stale_marks_refuted, C01_collect_safe_stale_refuted), remPtrPre (C01_del_null_old_refuted), tlsCallback = false, guarded = false; the withdrawn '
+                  'guard of Thread_Mark (80c795e, reverted by 0a0ad73) is the variant Cfg.threadGuarded, refuted by C01_thread_guard_refuted (a Thread object other than '
+                  'current(Thread) as the sole path to objects stored in its table).')
     level_note = ('Trusted: Lean kernel; axioms propext/Quot.sound/Classical.choice at most; translate/g_gcmark.py (regex over GC.c and the Mark instances); the '
                   'harness/driver comparison (testing); the registry lookup inside GC_Mark_Item is abstracted as a finite map (its correctness is C17). '
                   'Not covered: recursion depth of the C marker (known finding F27: chains of about 10^5 links overflow the C stack), dangling pointers in '
-                  'Tuples after an explicit del (known finding KF-C01-dangling-tuple-item), mark bits left set by a mark phase that an exception left '
-                  '(known finding KF-C01-stale-marks: the model has them, the safety theorems assume them away for the unrepaired code), other threads (C13), '
+                  'Tuples after an explicit del (known finding KF-C01-dangling-tuple-item), other threads running concurrently (C13: Thread_Mark walks the table of a '
+                  'Thread object that may be running, unsynchronised), '
                   'paths through objects that are not registered (new_raw / unregistered by hand: the chain must consist of registered objects), '
                   'Box targets referenced from elsewhere (Box ownership contract: explicit hypothesis boxExclusive of the _partial theorems).')
     rule = ('heap-graph histories over 11 object kinds (plain structs of 1-8 words, a probe with its own Mark instance, Ref, Box, Array/List of Ref, Table '
-            'Int->Ref and Ref->Ref, Tree Int->Ref and Ref->Ref, heap Tuple) plus Array/List of Int/String/Float and Table/Tree with key type Ref/Int/String and value '
+            'Int->Ref and Ref->Ref, Tree Int->Ref and Ref->Ref, heap Tuple) plus a Thread object other than current(Thread) with objects stored in its table (set(t, key, obj)), '
+            'Array/List of Int/String/Float and Table/Tree with key type Ref/Int/String and value '
             'type Ref/Int/String/Float; re-typing ops: assign between Array/List (and from a heap Tuple), between Table/Tree, between Tuples (the target takes over the '
             'source\'s element types: leaf -> reference-bearing and back), copy, resize to 0 / shrink / rehash, after which the container is the sole path (root word, '
             'stack slot, root-registered holder, TLS) to objects across exact, forced and threshold collections; random pointer stores (incl. misaligned, interior, out-of-range and small-integer '
@@ -732,7 +760,11 @@ class C01(Spec):
             'collections; exact mode: real mark functions on a chosen root-word list + real GC_Sweep, mark bits and swept set compared with the model; full mode: '
             'real GC_Mark/GC_Sweep triggered by allocation thresholds and forced. Targeted shapes: cycles through all kinds, self references, tuple cycles, '
             'TLS-only reachability, sharing through each representation, growth/shrink/rehash, box ownership, containers allocated with new_raw in the middle of a path '
-            '(not traced), chains up to the cap, the matrix leaf-typed target x '
+            '(not traced), a non-current Thread object (held by a root word, stack slot, root-registered holder or TLS) as the sole path across exact, forced and '
+            'threshold collections; collections whose mark phase is left by an exception (exact: xraise, the Mark instance of a probe throws — the bits that stay are '
+            'compared with the model when they do not depend on enumeration order; full: craise on the real GC_Mark), followed by stores that attach unmarked objects to '
+            'holders whose bit stayed set and by further collections; 8-slot probes whose destructor calls del(NULL) swept alone, below a Box and explicitly deleted; '
+            'chains up to the cap, the matrix leaf-typed target x '
             'reference-bearing source for sequences and maps (direct and via copy+clear), growth after re-typing. '
             'non-trivial item = a collection that marked at least 2 objects and swept at least 1 (exact mode) or a forced collection with at least 2 live '
             'objects (full mode); distinct = distinct op-file prefix up to that collection.')
@@ -741,7 +773,8 @@ class C01(Spec):
                     'harness/h_gcmark.c + lean/Driver/GcMark.lean + lean/Cello/HeapOps.lean (correspondence is testing)',
                     'the registry probe inside GC_Mark_Item / GC_Sweep is modelled as a finite map (C17 covers the registry)',
                     'exact mode replicates the 8-line root loop of GC_Mark in the harness (the real loop runs in full mode); whether the replica clears the mark bits '
-                    'first follows the source through -DC01_MARK_CLEARS_FIRST (vlib/props/c01.py: mark_clears_first, same reading as the translator)',
+                    'first follows the source through -DC01_MARK_CLEARS_FIRST (vlib/props/c01.py: mark_clears_first, same reading as the translator); the real GC_Unmark '
+                    'runs in full mode (craise leaves the real GC_Mark by an exception, the following forced / threshold collections are checked by the shadow-graph oracle)',
                     'register spill: every callee-saved register that holds a live pointer at the time of a collection is written, unmangled, into the scanned stack range '
                     'by setjmp(env) in GC_Mark or by a frame between the mutator and GC_Mark_Stack (glibc x86-64 setjmp stores rbx, r12-r15 plain but rbp, rsp and the return '
                     'address pointer-mangled; with -fomit-frame-pointer rbp is an ordinary callee-saved register): the model takes `stack : List Word` as given; full mode tests '
@@ -756,8 +789,6 @@ class C01(Spec):
                    'the chain consists of REGISTERED objects: a pointer to an object allocated with new_raw (or unregistered by hand) that is found on the stack, in a Ref, in a '
                    'plain struct or in a container element is ignored by GC_Mark_Item, so a path through it is not followed (Points / Reachable read the registry); only the Mark '
                    'instance of a registered Tuple / user type would hand such a pointer to the callback, which is not generated (witness corpus/gcmark_raw_container.ops)',
-                   'no exception leaves a mark phase (Mark instances do not throw; no dangling Tuple items): otherwise the mark bits set so far survive and the next collection '
-                   'starts from them (known finding KF-C01-stale-marks, witness corpus/kf_c01_stale_marks.ops; hypothesis `GOp.completes` of C01_history_safe_partial)',
                    'heap Tuples and user Mark instances hand only non-NULL pointers to registered objects; explicit del only of objects that nothing usable points to '
                    'and that no Tuple / user Mark instance which has become garbage (and may not have been swept yet) pointed to: otherwise the next collection '
                    'reads freed memory (known finding KF-C01-dangling-tuple-item, witness corpus/kf_c01_dangling_tuple.ops)',
